@@ -31,6 +31,9 @@ type Config struct {
 	Op      byte   `json:"op"`                // configured opcode
 	Ext     int    `json:"ext,omitempty"`     // ExtCompressed | ExtRsv2 | ExtPlainState bits
 	NoFlush bool   `json:"noflush,omitempty"` // DisableFlush() called after construction
+	// Extended adds ws.StateExtended to the writer's state (the state an endpoint has
+	// after negotiating an extension); masking must depend on the side bit only.
+	Extended bool `json:"extended,omitempty"`
 }
 
 // Extension bits of Config.Ext.
@@ -42,10 +45,14 @@ const (
 
 // State is the ws.State of the configured side.
 func (c Config) State() ws.State {
+	st := ws.StateServerSide
 	if c.Client {
-		return ws.StateClientSide
+		st = ws.StateClientSide
 	}
-	return ws.StateServerSide
+	if c.Extended {
+		st |= ws.StateExtended
+	}
+	return st
 }
 
 func ceilPow2(n int) int {
